@@ -237,7 +237,10 @@ theorem step_lock (C : Crypto) (w : World) (op : Op) (k : Bytes × Bytes) (hk : 
             split
             · rename_i w2 rs evs pd hc
               exact hcall w1 _ _ _ _ _ _ w2 rs evs pd hc (by rw [hi]; exact hk)
-            · exact hk
+            · split
+              · show w1.its.lock k = true
+                rw [hi]; exact hk
+              · exact hk
   | callback id =>
     simp only [step, callback]
     split
